@@ -11,6 +11,9 @@ import (
 	"fmt"
 	"math/rand"
 	"os"
+	"runtime"
+	"sync"
+	"time"
 
 	"github.com/IrineSistiana/mosproxy/internal/dnsmsg"
 	domainmatcher "github.com/IrineSistiana/mosproxy/internal/domain_matcher"
@@ -218,6 +221,50 @@ func (s *session) probe(ns []name) {
 	tr.Emit("dm.probe", "names", namesJS(ns), "res", res)
 }
 
+// probeConcurrent: the matcher is read-only once loaded, so any number of goroutines may ask it at once and each
+// gets the answers a single caller gets. A goroutine whose answers differ from the sequential (validated) ones
+// puts them through the trace as a probe of its own.
+func (s *session) probeConcurrent(ns []name, workers int, dur time.Duration) {
+	want := make([]bool, len(ns))
+	for i, n := range ns {
+		want[i] = s.m.Match(n.wire())
+	}
+	wires := make([][]byte, len(ns))
+	for i, n := range ns {
+		wires[i] = n.wire()
+	}
+	var wg sync.WaitGroup
+	var mu sync.Mutex
+	reported := 0
+	for w := 0; w < workers; w++ {
+		wg.Add(1)
+		go func(w int) {
+			defer wg.Done()
+			// a tight loop: nothing but look-ups, each answer checked at once
+			bad := -1
+			n := 0
+			for t0 := time.Now(); bad < 0; n++ {
+				i := (w + n) % len(wires)
+				if s.m.Match(wires[i]) != want[i] {
+					bad = i
+				}
+				if n&0xfff == 0 && time.Since(t0) > dur {
+					break
+				}
+			}
+			if bad >= 0 {
+				mu.Lock()
+				if reported < 5 {
+					reported++
+					tr.Emit("dm.probe", "names", namesJS(ns[bad:bad+1]), "res", []bool{!want[bad]}, "concurrent", true)
+				}
+				mu.Unlock()
+			}
+		}(w)
+	}
+	wg.Wait()
+}
+
 func emitReadable(n name) {
 	b, err := dnsmsg.ToReadable(n.wire())
 	if err != nil {
@@ -405,6 +452,34 @@ func randomLists(lists, entries, probes int) {
 			}
 			s.load(es[lo:hi])
 			s.probe(ps)
+		}
+		// a balanced probe set of deep names for the concurrent phase: sub-domains of entries (match) and the
+		// same names under a top label no entry has (no match)
+		var cps []name
+		for i := 0; i < len(es) && len(cps) < 60; i++ {
+			if es[i].kind != "domain" || len(es[i].n) == 0 || wireLen(es[i].n) > 120 {
+				continue
+			}
+			var deep name
+			for k := 0; k < 8+rng.Intn(8); k++ {
+				deep = append(deep, []byte{byte('a' + rng.Intn(26)), byte('0' + k%10)})
+			}
+			cps = append(cps, append(append(name{}, deep...), es[i].n...))
+			cps = append(cps, append(append(append(name{}, deep...), es[i].n...), []byte("no-such-top-label")))
+		}
+		if li%2 == 0 {
+			// on a set without regexp entries (their evaluation dwarfs the walk of the label tree and goes through
+			// the instrumented buffer pool): loaded and probed sequentially first, so the trace vouches for `want`
+			var plain []entry
+			for _, e := range es {
+				if e.kind != "regexp" {
+					plain = append(plain, e)
+				}
+			}
+			s2 := newSession()
+			s2.load(plain)
+			s2.probe(cps)
+			s2.probeConcurrent(cps, 4*runtime.GOMAXPROCS(0), 400*time.Millisecond)
 		}
 		for i := 0; i < 20 && i < len(ps); i++ {
 			emitReadable(ps[i])
